@@ -115,12 +115,17 @@ def check(R, F):
                 rows[key] = (ops[0], ops[1], mode.group(1) if mode else ops[2], ops[2], b)
     spec = {'Ok': ('Rcode(0_u8)', 'ExtendedRcode(0_u16)', 'Response'), 'BadSig': ('Rcode(9_u8)', 'ExtendedRcode(16_u16)', 'Unsigned'),
             'BadTime': ('Rcode(9_u8)', 'ExtendedRcode(18_u16)', 'Response'), 'FormErr': ('Rcode(1_u8)', 'ExtendedRcode(16_u16)', 'Unsigned')}
-    for k, want in spec.items():
+    if not rows:
+        # the rule reads the table off one (rcode, error, mode) tuple per outcome; a function that decides the three in
+        # separate steps is a different program shape that it does not decide
+        R.bad('tsig-table', vt.gpath + '|table', vt.where(), 'cannot find the (rcode, TSIG error, mode) tuples of verify_tsig_and_write_tsig_rr: shape not recognised')
+    for k, want in (spec.items() if rows else ()):
         got = rows.get(k)
         R.require(got is not None and got[:3] == want, 'tsig-table', vt.gpath + '|' + k, vt.where(got[4]) if got else vt.where(), '%s -> %s' % (k, want), 'outcome %s produces %s, the RFC 8945 table prescribes %s' % (k, got[:3] if got else None, want))
         if got and want[2] == 'Response':
             R.require('ReadTsigRr::mac(arg1)' in got[3] and 'arg3' in got[3] and 'arg4' in got[3], 'tsig-table', vt.gpath + '|' + k + '-signed-with-request-mac', vt.where(got[4]), 'signed with the request MAC, the algorithm and the key', 'the signed response mode is built from %s' % got[3])
-    R.require(set(rows) == set(spec), 'tsig-table', vt.gpath + '|complete', vt.where(), 'one row per outcome', 'rows %s' % sorted(map(str, rows)))
+    if rows:
+        R.require(set(rows) == set(spec), 'tsig-table', vt.gpath + '|complete', vt.where(), 'one row per outcome', 'rows %s' % sorted(map(str, rows)))
     setters = tsig_setters(F)
     st_ = tsig_calls(vt, setters)
     sr = calls_in(vt, W + 'set_rcode')
@@ -132,7 +137,8 @@ def check(R, F):
         if d[2] == 'assign' and d[3]['rv']['k'] == 'use' and d[3]['rv']['op']['k'] == 'const':
             return const_name(d[3]['rv']['op']) == 'false'
         txt = paths.show_operand(vt, d[3]['rv']['op']) if d[2] == 'assign' and d[3]['rv']['k'] == 'use' else (callee_name(d[3]) + '(' + ','.join(paths.show_operand(vt, a) for a in d[3]['args']) + ')' if d[2] == 'call' else '?')
-        return re.search(r'Rcode(?: as std::cmp::PartialEq>)?::eq\(.*Rcode\(0_u8\)\)', txt) is not None
+        # rcode == NOERROR, or the verification result itself being Ok (NOERROR is the Ok row of the table)
+        return re.search(r'Rcode(?: as std::cmp::PartialEq>)?::eq\(.*Rcode\(0_u8\)\)', txt) is not None or re.search(r'Result(::<T, E>)?::is_ok\(.*verify_request\(', txt) is not None
     R.require(bool(rdefs) and all(ret_ok(d) for d in rdefs) and any(not (d[2] == 'assign' and d[3]['rv']['k'] == 'use' and d[3]['rv']['op']['k'] == 'const') for d in rdefs), 'tsig-table', vt.gpath + '|returns-noerror-only', vt.where(), 'returns true only when rcode == NOERROR', 'the function can return true without rcode == NOERROR')
     for name, what in (('server::find_tsig_algorithm_or_write_error', 'unknown-algorithm'), ('server::find_tsig_key_or_write_error', 'unknown-key')):
         fn = F.fn(name)
